@@ -881,8 +881,8 @@ func (ex *c12Exec) assignStmt(fr *c12Frame, st *ast.AssignStmt) {
 	if len(st.Lhs) == len(st.Rhs) {
 		vals := make([]c12Val, len(st.Rhs))
 		for i, r := range st.Rhs {
-			if define {
-				// p := &m.a[i] / p := m.slot(): a local pointer into the receiver state is an alias of that state
+			if define || (st.Tok == token.ASSIGN && c12IsLocalPtr(fr, st.Lhs[i])) {
+				// p := &m.a[i] / p := m.slot() / var p *T; p = &m.a: a local pointer into the receiver state is an alias of that state
 				vals[i] = ex.argVal(fr, r)
 			} else {
 				vals[i] = ex.rv(ex.expr(fr, r))
@@ -925,6 +925,16 @@ func (ex *c12Exec) assignStmt(fr *c12Frame, st *ast.AssignStmt) {
 		ex.bind(fr, st.Lhs[1], okv, define, st)
 		return
 	}
+	if ix, isIx := unparen(st.Rhs[0]).(*ast.IndexExpr); isIx && len(st.Rhs) == 1 && len(st.Lhs) == 2 {
+		// v, ok := m[k] on a read-only table with known keys
+		if m, isMap := ex.rv(ex.expr(fr, ix.X)).(c12Map); isMap {
+			if val, found, known := ex.mapLookup(fr, m, ex.rv(ex.expr(fr, ix.Index)), nil); known {
+				ex.bind(fr, st.Lhs[0], val, define, st)
+				ex.bind(fr, st.Lhs[1], c12Bool{found}, define, st)
+				return
+			}
+		}
+	}
 	if len(st.Rhs) == 1 {
 		v := ex.rv(ex.expr(fr, st.Rhs[0]))
 		t, ok := v.(c12Tuple)
@@ -938,6 +948,20 @@ func (ex *c12Exec) assignStmt(fr *c12Frame, st *ast.AssignStmt) {
 		return
 	}
 	ex.unsupported(fr, st, "assignment shape")
+}
+
+// c12IsLocalPtr: e is a plain local variable of pointer type (not a field, not a package-level variable).
+func c12IsLocalPtr(fr *c12Frame, e ast.Expr) bool {
+	id, ok := unparen(e).(*ast.Ident)
+	if !ok || id.Name == "_" {
+		return false
+	}
+	v, ok := fr.info.ObjectOf(id).(*types.Var)
+	if !ok || v.IsField() || v.Pkg() == nil || v.Parent() == v.Pkg().Scope() {
+		return false
+	}
+	_, isPtr := v.Type().Underlying().(*types.Pointer)
+	return isPtr
 }
 
 // assign stores v into lhs (local variable, field of a local struct, or receiver state).
